@@ -702,6 +702,55 @@ def c05n(prog, rep):
               where="%s:%d" % (b.file, b.line), instance={"class_is_part_of_a_type_after": sorted(exempt), "paths_on_which_class_ends_the_section": ends})
 
 
+def c05o(prog, rep):
+    """C05.o — the lexer types a contextual keyword (`operator`, `helper`, `sealed`, `reference` .. — the rows of its keyword table that say
+    IdentifierOrKeyword) as `IdentifierOrKeyword(K)`; it becomes `Keyword(K)` only where the parser resolves it, which happens when
+    the parser *reaches* the token.  A test of another token's type (`get_token_type::<N>()`) that names `Keyword(K)` for such a K and
+    does not accept `IdentifierOrKeyword(K)` as well can never be true for a token the parser has not reached yet: a look-ahead
+    `class` + `Keyword(Operator)` treats `class operator` as if no member followed, and the member drifts into the section before it."""
+    R = "C05.o"
+    from table import canon_place
+    kw = prog.const_arrays.get("pasfmt_core::defaults::lexer::KEYWORDS")
+    if not rep.check(kw is not None and kw.get("elems"), R, "anchor:KEYWORDS", "the lexer's keyword table was not found"):
+        return
+    contextual = set()
+    for e in kw["elems"]:
+        try:
+            if e[1].get("call", {}).get("path", "").endswith("IdentifierOrKeyword"):
+                contextual.add(e[1]["args"][0]["path"].split("::")[-1])
+        except (KeyError, IndexError, TypeError, AttributeError):
+            pass
+    rep.floor(R, "contextual keywords in the lexer's table", len(contextual), 30)
+    PM = "pasfmt_core::defaults::parser::"
+    n, bad = 0, []
+    for k, b in prog.bodies.items():
+        if not k.startswith(PM) or "::tests::" in k:
+            continue
+        sw = {}
+        for bb in sorted(b.reachable()):
+            t = b.blocks[bb]["term"]
+            if t["k"] != "switch" or t["discr"]["k"] not in ("copy", "move"):
+                continue
+            d = t["discr"]["place"]["l"]
+            for st in b.blocks[bb]["stmts"]:
+                if st["k"] == "assign" and st["dst"]["l"] == d and not st["dst"]["p"] and st["rv"]["k"] == "discr":
+                    adt = norm(st["rv"].get("adt", ""))
+                    sw.setdefault(canon_place(b, st["rv"]["place"], {}), []).append({prog.variant_of(adt, v) for v, _ in t["targets"]})
+        for key, lst in sw.items():
+            m = re.match(r"^(get_token_type\([^()]*\))@Some\.0@Keyword\.0$", key)
+            if not m:
+                continue
+            n += 1
+            named = set().union(*lst)
+            also = set().union(*sw.get(m.group(1) + "@Some.0@IdentifierOrKeyword.0", [set()]))
+            dead = sorted((named & contextual) - also)
+            if dead:
+                bad.append("%s tests another token for Keyword(%s)" % (short(k), " | ".join(dead)))
+    rep.check(not bad, R, "look-ahead-accepts-the-unresolved-form",
+              "%s without accepting IdentifierOrKeyword of the same kind: the lexer never produces that keyword form, and the parser resolves a contextual keyword only when it reaches it, so the "
+              "test is false for every token that lies ahead" % (bad[:2]), instance={"kind_tests_on_other_tokens": n, "dead": bad[:3]})
+
+
 # adapters that answer "is there an element with property P" when P is their own predicate
 EXISTENTIAL_ADAPTERS = ("any", "find", "position", "rposition", "find_map", "filter")
 BODYLESS_DIRECTIVES = {"Forward", "External"}
@@ -804,6 +853,7 @@ def check_c05(prog, rep, tier, cfg):
     c05l(prog, rep)
     c05m(prog, rep)
     c05n(prog, rep)
+    c05o(prog, rep)
     # C05.k — "indented exactly one level deeper": what is written for a line start is `indentations` copies of the indentation string and
     # `continuations` copies of the continuation string, whatever the depth (shared with C08.a counter <-> string pairing and C10.c: the
     # width strings reach the output only through push / repeat, not through a cache that can be too short)
